@@ -391,7 +391,7 @@ def selector_rules(ctx, prop: str):
         n_ins = 0
         for name, m in methods.items():
             b = body_of(m)
-            for ins in ('insert_or_assign', 'insert', 'emplace', 'try_emplace', 'operator[]', 'erase', 'clear'):
+            for ins in ('insert_or_assign', 'insert', 'emplace', 'emplace_hint', 'try_emplace', 'operator[]', 'erase', 'clear', 'merge', 'extract', 'swap'):
                 for call in _calls_member(b, ins):
                     if not refers_to_member(call, 'm_clients'):
                         continue
@@ -473,6 +473,38 @@ def selector_rules(ctx, prop: str):
                     f'{name} does not change who is selected' if not writes else
                     f'{name} changes the selection ({", ".join(sorted(set(writes)))}): a client becomes (de)selected without a granted '
                     f'claim / a release of its own')
+        # the entry handed out for an identifier is the entry OF that identifier: a position found by an ordered search
+        # (lower_bound / upper_bound / equal_range) is the first entry NOT LESS than the key - another client's entry unless the
+        # key found is compared with the one asked for
+        n_exact = 0
+        for name, m in methods.items():
+            b = body_of(m)
+            for meth in ('lower_bound', 'upper_bound', 'equal_range'):
+                for c in _calls_member(b, meth):
+                    if not refers_to_member(c, 'm_clients'):
+                        continue
+                    n_exact += 1
+                    keys = {(y.get('referencedDecl') or {}).get('name') for y in walk_json(c) if kind(y) == 'DeclRefExpr'
+                            and (y.get('referencedDecl') or {}).get('kind') == 'ParmVarDecl'}
+                    compared = False
+                    for x in walk_json(b):
+                        is_cmp = (kind(x) == 'BinaryOperator' and x.get('opcode') in ('==', '!=', '<', '>')) or (
+                            kind(x) == 'CXXOperatorCallExpr' and any(
+                                kind(y) == 'DeclRefExpr' and (y.get('referencedDecl') or {}).get('name') in ('operator==', 'operator!=', 'operator<', 'operator>')
+                                for y in walk_json((x.get('inner') or [{}])[0])))
+                        if not is_cmp and not (kind(x) == 'CallExpr' and any(
+                                kind(y) == 'MemberExpr' and y.get('name') == 'key_comp' for y in walk_json(x))):
+                            continue
+                        has_first = any(kind(y) == 'MemberExpr' and y.get('name') == 'first' for y in walk_json(x))
+                        has_key = any(kind(y) == 'DeclRefExpr' and (y.get('referencedDecl') or {}).get('name') in keys for y in walk_json(x))
+                        if has_first and has_key:
+                            compared = True
+                    run.add('C04.selector', mod, f'MultiClientSelector::{name}', f'{meth} on m_clients', compared,
+                            f'the position found by {meth}() is taken for the client\'s entry only after its key has been compared with the identifier' if compared else
+                            f'{name} takes the position found by m_clients.{meth}() for the entry of `{", ".join(sorted(k for k in keys if k)) or "the key"}` without comparing the '
+                            f'key found: for an unregistered identifier that is the entry of the NEXT client in key order, whose port '
+                            f'(and selection) is handed to the caller')
+        run.stats['selector_ordered_searches'] = n_exact
         cc = body_of(methods['CurrentClient'])
         ok = any(kind(x) == 'CXXOperatorCallExpr' and refers_to_member(x, 'm_clientSelect') for x in walk_json(cc)) and \
             any(kind(s) == 'ReturnStmt' for s in cc.get('inner', []))
@@ -582,7 +614,7 @@ def _c11_rules(ctx, methods: Dict[str, dict], sel: List[dict], mw: List[dict]):
     for name in ('Select', 'Deselect', 'CurrentClient', 'GetClientIdentifiers', 'FinalConstruct'):
         b = body_of(methods[name])
         writes = []
-        for w in ('insert_or_assign', 'insert', 'emplace', 'try_emplace', 'erase', 'clear', 'operator[]', 'swap'):
+        for w in ('insert_or_assign', 'insert', 'emplace', 'emplace_hint', 'try_emplace', 'erase', 'clear', 'operator[]', 'swap', 'merge', 'extract'):
             writes += [c for c in _calls_member(b, w) if refers_to_member(c, 'm_clients')]
         run.add('C11.immutable', mod_s, f'MultiClientSelector::{name}', 'm_clients writes', not writes,
                 f'{name} only reads the client map' if not writes else
